@@ -59,6 +59,7 @@ class Sim:
         self.cb_total = 0
         self.fault_at: Optional[int] = None   # raise SimFault at this callback index of the current op
         self.fault_kinds = None      # optional set restricting which callback kinds may fault
+        self.faultable_in_op = 0     # callbacks of faultable kinds seen in the current op
         self.cb_observers = []       # functions(kind, who, what) run at every callback (C09 invariant)
         self.log_callbacks = True
 
@@ -78,15 +79,14 @@ class Sim:
         return v
 
     # ------------------------------------------------------------------ ops
-    def begin_op(self, index: int, fault_at: Optional[int] = None, fault_kinds=None):
+    def begin_op(self, index: int, fault_at: Optional[int] = None):
         self.op_index = index
         self.cb_in_op = 0
+        self.faultable_in_op = 0
         self.fault_at = fault_at
-        self.fault_kinds = fault_kinds
 
     def end_op(self):
         self.fault_at = None
-        self.fault_kinds = None
 
     # ------------------------------------------------------------------ callback seam
     def callback(self, kind: str, who: Any = None, what: Any = None):
@@ -105,13 +105,15 @@ class Sim:
             self.seq += 1
         for obs in self.cb_observers:
             obs(kind, who, what)
-        if self.fault_at is not None and self.cb_in_op == self.fault_at:
-            if self.fault_kinds is None or kind in self.fault_kinds:
-                self.counters["fault_fired:" + kind] += 1
-                self.counters["fault_fired"] += 1
-                self.seq += 1
-                self.log.append((self.op_index, "FAULT", kind, who, what))
-                raise SimFault(f"injected at callback {self.cb_in_op} ({kind} {who} {what})")
+        if self.fault_kinds is not None and kind not in self.fault_kinds:
+            return
+        self.faultable_in_op += 1
+        if self.fault_at is not None and self.faultable_in_op == self.fault_at:
+            self.counters["fault_fired:" + kind] += 1
+            self.counters["fault_fired"] += 1
+            self.seq += 1
+            self.log.append((self.op_index, "FAULT", kind, who, what))
+            raise SimFault(f"injected at callback {self.faultable_in_op} ({kind} {who} {what})")
 
     # ------------------------------------------------------------------ digest
     def digest(self) -> str:
